@@ -33,6 +33,82 @@ def _queue_push_blocks(ctx, fn):
     return [bb for (bb, m, t) in u.calls.get('queue', []) if m == 'push_back']
 
 
+def pipe_result_blocks(ctx, k):
+    """What a pipe's poll coroutine `k` answers, in the terms of its only consumer (PipeContext::poll): blocks of k that set the result to
+    a value on which PipeContext::poll releases the poll function ("stop") and blocks that set any other value ("keep").
+    Works for a bool result as well as for a two-variant enum.  -> (keep_blocks, stop_blocks) or None when the shape is not recognised."""
+    F = ctx.F
+    pp = F.fn('desync::PipeContext::poll')
+    if not pp:
+        return None
+    stop_vals = None
+    for c in [x for x in _children(ctx, pp.name) if x.is_coroutine]:
+        H = ctx.held(c)
+        nones = []
+        for bb, b in enumerate(c.blocks):
+            if b['cleanup']:
+                continue
+            for s_ in b['stmts']:
+                if s_['k'] == 'assign' and s_['pl']['p']:
+                    ev = c.expr_of_rvalue(s_['rv'])
+                    if ev[0] == 'agg' and ev[2].endswith('Option::None') and 'PipeContext.poll_fn' in (H.held_before(bb, 0) | H.held_at_term(bb)):
+                        nones.append(bb)
+        aws = await_sites(c)
+        if not nones or not aws:
+            continue
+        nb = nones[0]
+        from .ordq import feasible_reach
+        for a in aws:
+            if a['ready'] is None:
+                continue
+            pd = c.blocks[a['poll_bb']]['term']['dest']['l']
+            X = None
+            for b in c.blocks:
+                for s_ in b['stmts']:
+                    if s_['k'] == 'assign' and not s_['pl']['p'] and s_['rv']['k'] == 'use' and s_['rv']['op']['k'] in ('copy', 'move'):
+                        pl = s_['rv']['op']['pl']
+                        if pl['l'] == pd and [p['k'] for p in pl['p']] == ['downcast', 'field']:
+                            X = s_['pl']['l']
+            if X is None:
+                continue
+            xty = clean_ty(c.local_ty(X))
+            if xty == 'bool':
+                cands = [('0', ('bool', 0)), ('1', ('bool', 1))]
+                kind, ty = 'bool', None
+            elif F.adts.get(ty_head(xty), {}).get('kind') == 'Enum':
+                ty = ty_head(xty)
+                cands = [(str(v['discr']), ('enum', v['name'])) for v in F.adts[ty]['variants']]
+                kind = 'enum'
+            else:
+                continue
+            stop = set(d for d, val in cands if feasible_reach(c, a['ready'], {nb}, set(), overrides={X: val}))
+            if stop and len(stop) < len(cands):
+                stop_vals = (kind, ty, stop)
+    if stop_vals is None:
+        return None
+    kind, ty, stop = stop_vals
+    keep_blocks, stop_blocks = set(), set()
+    for bb, b in enumerate(k.blocks):
+        if b['cleanup']:
+            continue
+        for s_ in b['stmts']:
+            if s_['k'] != 'assign' or s_['pl']['p'] or s_['pl']['l'] != 0:
+                continue
+            rv = s_['rv']
+            v = None
+            if kind == 'bool' and rv['k'] == 'use' and rv['op']['k'] == 'const':
+                v = str(rv['op'].get('val'))
+            elif kind == 'enum' and rv['k'] == 'agg' and rv.get('adt') == ty:
+                v = [str(x['discr']) for x in F.adts[ty]['variants'] if x['name'] == rv.get('variant')]
+                v = v[0] if v else None
+            if v is None:
+                return None      # a result that is not a literal: not decided
+            (stop_blocks if v in stop else keep_blocks).add(bb)
+    if not keep_blocks and not stop_blocks:
+        return None
+    return keep_blocks, stop_blocks
+
+
 # ---------------------------------------------------------------------------------------------
 def c02_append(ctx):
     """Every scheduling call appends its job under the queue-core lock before it returns, in the call's own body (not in a returned future)."""
@@ -1118,28 +1194,19 @@ def c11(ctx):
     item_src = render(k.expr_of_operand(procs[0].t['args'][1])) if len(procs[0].t['args']) > 1 else ''
     if 'Some' not in item_src:
         problems.append('the value passed to the processing function is not the item that was read (%s)' % item_src[:60])
-    # Pending -> true ; Ready(None) -> false
-    def ret_const(edge):
-        seen, st = set(), [edge]
-        vals = set()
-        while st:
-            x = st.pop()
-            if x in seen:
-                continue
-            seen.add(x)
-            for s in k.blocks[x]['stmts']:
-                if s['k'] == 'assign' and not s['pl']['p'] and s['pl']['l'] == 0 and s['rv']['k'] == 'use' and s['rv']['op']['k'] == 'const':
-                    vals.add(s['rv']['op'].get('val'))
-                    break
-            else:
-                t = k.blocks[x]['term']
-                if t and t['k'] not in ('return', 'call', 'yield', 'switch'):
-                    st.extend(k.succs(x))
-        return vals
-    if ret_const(pending) != {'1'}:
-        problems.append('a Pending stream does not keep the pipe alive (must return true)')
-    if ret_const(none) != {'0'}:
-        problems.append('the end of the stream does not end the pipe (must return false)')
+    # Pending -> keep ; Ready(None) -> stop   (in the terms of PipeContext::poll, which releases the poll function on "stop")
+    prb = pipe_result_blocks(ctx, k)
+    if prb is None:
+        out.append(undecided(R, key, 'the result of the poll function is not a literal keep / stop answer that PipeContext::poll tests' + ('; also: ' + '; '.join(problems) if problems else '')))
+        return out
+    keep_b, stop_b = prb
+
+    def only(edge, mine, other):
+        return k.must_pass(edge, set(k.exits()), mine) and not (k.reachable_blocks(edge, avoid=mine) & other)
+    if not only(pending, keep_b, stop_b):
+        problems.append('a Pending stream does not keep the pipe alive (must answer "keep polling")')
+    if not only(none, stop_b, keep_b):
+        problems.append('the end of the stream does not end the pipe (must answer "finished")')
     if problems:
         out.append(bad(R, key, '; '.join(problems), fn=k.name))
     else:
@@ -1257,9 +1324,13 @@ def c16(ctx):
     k = pk[0]
     # the closure that creates the coroutine upgrades the weak core
     parent = F.fn(k.parent)
-    ups = calls(parent, 'alloc::sync::Weak::upgrade') if parent else []
+    ups = []
+    for c_ in [x for x in [parent] + _children(ctx, 'desync::pipe') if x]:
+        for bb_, t_ in calls(c_, 'alloc::sync::Weak::upgrade'):
+            if 'PipeStreamCore' in clean_ty(t_['args'][0]['pl']['ty']) and (c_.name, bb_) not in [(a, b) for a, b, _ in ups]:
+                ups.append((c_.name, bb_, t_))
     key = 'pipe|weak-core'
-    if len(ups) == 1:
+    if len(ups) >= 1:
         out.append(ok(R, key, 'the producer reaches the stream core through a Weak that is upgraded on every poll', fn=parent.name))
     else:
         out.append(bad(R, key, 'the producer no longer upgrades a weak reference to the stream core on each poll', fn=parent.name if parent else ''))
@@ -1314,20 +1385,23 @@ def c16(ctx):
             e = k.expr_of_local(t['discr']['pl']['l'])
             if render(e).endswith('.closed') and 'lock(' in render(e):
                 closed_true.append(t['otherwise'])
-    zero_blocks, one_blocks = set(), set()
-    for bb_, b_ in enumerate(k.blocks):
-        if b_['cleanup']:
-            continue
-        for s_ in b_['stmts']:
-            if s_['k'] == 'assign' and not s_['pl']['p'] and s_['pl']['l'] == 0 and s_['rv']['k'] == 'use' and s_['rv']['op']['k'] == 'const':
-                (zero_blocks if str(s_['rv']['op'].get('val')) == '0' else one_blocks).add(bb_)
+    prb = pipe_result_blocks(ctx, k)
+    one_blocks, zero_blocks = prb if prb else (set(), set())
 
     def _ret_consts(edge):
-        # every path from the edge to the end of the poll function assigns `false` (and never `true`) to the result
+        # every path from the edge to the end of the poll function answers "finished" (and never "keep polling")
         if k.must_pass(edge, set(k.exits()), zero_blocks) and not (k.reachable_blocks(edge, avoid=zero_blocks) & one_blocks):
             return {'0'}
+        from .ordq import feasible_reach
+        if not feasible_reach(k, edge, set(k.exits()) | one_blocks, zero_blocks):
+            return {'0'}
         return {'?'}
-    if len(closed_true) < 2:
+    if prb is None:
+        out.append(undecided(R, key, 'the result of the poll function is not a literal keep / stop answer that PipeContext::poll tests'))
+        closed_true = None
+    if closed_true is None:
+        pass
+    elif len(closed_true) < 2:
         out.append(undecided(R, key, 'expected two tests of `closed` in the producer, found %d' % len(closed_true)))
     elif all(_ret_consts(e_) == {'0'} for e_ in closed_true):
         out.append(ok(R, key, 'both tests of `closed` lead to `return false` (the poll function, input stream and closure are then released)', fn=k.name))
@@ -1647,17 +1721,12 @@ def c11_sleep(ctx):
         pending = edge_for(e, POLL_ENUM, 'Pending') if e else None
         u = FieldUse(k, 'desync::PipeStreamCore')
         parks = [bb for (bb, i, v) in u.assigns.get('backpressure_release_notify', []) if v[0] == 'agg' and v[2].endswith('Option::Some')]
-        trues = []
-        for bb, b in enumerate(k.blocks):
-            if b['cleanup']:
-                continue
-            for st_ in b['stmts']:
-                if st_['k'] == 'assign' and not st_['pl']['p'] and st_['pl']['l'] == 0 and st_['rv']['k'] == 'use' and st_['rv']['op']['k'] == 'const' and str(st_['rv']['op'].get('val')) == '1':
-                    trues.append(bb)
+        prb = pipe_result_blocks(ctx, k)
+        trues = sorted(prb[0]) if prb else []
         if not trues or pending is None:
             out.append(undecided(R, key, 'shape not recognised (true results %d)' % len(trues)))
             continue
-        badb = [b for b in trues if not (edom(k, pending, b) or any(dominates(k, pb, b) for pb in parks))]
+        badb = [b for b in trues if not (edom(k, pending, b) or any(dominates(k, pb, b) or edom(k, pb, b) for pb in parks))]
         if badb:
             out.append(bad(R, key, 'the poll function answers "still waiting" on a path where nobody holds its waker (the input was not Pending and no back-pressure registration): the pipe is never polled again and the remaining items are lost', loc=k.loc(badb[0]), fn=k.name))
         else:
